@@ -346,6 +346,7 @@ func validText(rt *rapid.T, enc string) (data []byte, tg target) {
 
 func TestC02Text(t *testing.T) {
 	const name = "TestC02Text"
+	c02CurrentTest = name
 	rec := evid.New("C02", name, "document-level mutation of valid XML and JSON encodings (generic trees, requests, responses, single payloads; produced by the independent writers or by the library): unknown/foreign/missing type, "+
 		"hostile or wrong-kind values at every position incl. top level and array elements, missing/duplicated keys and attributes, bad tag forms, children inside leaves, character data, truncation; "+
 		"targets ttlv.Value / message / payload; non-trivial = the mutated document is still well-formed for the standard library parser (so the KMIP layer is reached) and differs from the valid one; distinct by (encoding,target,bytes)").Attach(t)
